@@ -342,6 +342,150 @@ struct Ctx<T: Smp> {
     r: Option<R<T>>,
     hist: std::fs::File,
     dead: bool,
+    fed: Vec<u64>,
+}
+
+fn splitmix(state: &mut u64) -> u64 {
+    *state = state.wrapping_add(0x9E3779B97F4A7C15);
+    let mut z = *state;
+    z = (z ^ (z >> 30)).wrapping_mul(0xBF58476D1CE4E5B9);
+    z = (z ^ (z >> 27)).wrapping_mul(0x94D049BB133111EB);
+    z ^ (z >> 31)
+}
+
+fn to_t<T: Smp>(x: f64) -> T {
+    T::coerce(x)
+}
+
+/// Resolve a symbolic length (`next`, `next+3`, `max-1`, `abs:17`) against the current getters.
+fn resolve_len(spec: &str, next: usize, max: usize) -> usize {
+    if let Some(rest) = spec.strip_prefix("c1:") {
+        // at least one frame
+        return resolve_len(rest, next, max).max(1);
+    }
+    if let Some(n) = spec.strip_prefix("abs:") {
+        return n.parse().unwrap();
+    }
+    let (base, rest) = if let Some(r) = spec.strip_prefix("next") {
+        (next as i64, r)
+    } else if let Some(r) = spec.strip_prefix("max") {
+        (max as i64, r)
+    } else {
+        panic!("bad length spec {}", spec)
+    };
+    let delta: i64 = if rest.is_empty() { 0 } else { rest.parse().unwrap() };
+    (base + delta).max(0) as usize
+}
+
+/// One channel of signal: `rand:<seed>`, `ramp`, `imp:<stream pos>`, `const:<f64 hex>`,
+/// `poly:<c0 hex>:<c1 hex>:...` (in the stream position), `sine:<freq hex>:<phase hex>`, `zero`.
+fn gen_signal<T: Smp>(sig: &str, chan: usize, start: u64, n: usize) -> Vec<T> {
+    let parts: Vec<&str> = sig.split(':').collect();
+    match parts[0] {
+        "zero" => vec![T::zero(); n],
+        "rand" => {
+            // a function of (seed, channel, absolute stream position): independent of chunking
+            let seed: u64 = parts[1].parse().unwrap();
+            (0..n)
+                .map(|i| {
+                    let mut st = seed
+                        ^ ((chan as u64 + 1).wrapping_mul(0xD1B54A32D192ED03))
+                        ^ (start + i as u64).wrapping_mul(0x2545F4914F6CDD1D);
+                    let u = (splitmix(&mut st) >> 11) as f64 / (1u64 << 53) as f64;
+                    to_t::<T>(2.0 * u - 1.0)
+                })
+                .collect()
+        }
+        "ramp" => (0..n).map(|i| to_t::<T>((start + i as u64) as f64 + 1000.0 * chan as f64)).collect(),
+        "imp" => {
+            let pos: u64 = parts[1].parse().unwrap();
+            (0..n)
+                .map(|i| if start + i as u64 == pos { T::one() } else { T::zero() })
+                .collect()
+        }
+        "const" => vec![to_t::<T>(f64::from_hex(parts[1])); n],
+        "poly" => {
+            let cs: Vec<f64> = parts[1..].iter().map(|h| f64::from_hex(h)).collect();
+            (0..n)
+                .map(|i| {
+                    let x = (start + i as u64) as f64;
+                    let mut acc = 0.0;
+                    for c in cs.iter().rev() {
+                        acc = acc * x + c;
+                    }
+                    to_t::<T>(acc)
+                })
+                .collect()
+        }
+        "sine" => {
+            let f = f64::from_hex(parts[1]);
+            let ph = f64::from_hex(parts[2]);
+            (0..n)
+                .map(|i| to_t::<T>((2.0 * std::f64::consts::PI * f * (start + i as u64) as f64 + ph).sin()))
+                .collect()
+        }
+        s => panic!("unknown signal {}", s),
+    }
+}
+
+/// Expand symbolic `inlen=`/`outlen=`/`sig=` fields into concrete `in=`/`out=` fields.
+fn expand<T: Smp>(cx: &mut Ctx<T>, line: &str, m: &HashMap<String, String>) -> String {
+    if !(m.contains_key("inlen") || m.contains_key("outlen")) {
+        return line.to_string();
+    }
+    let r = cx.r.as_ref().unwrap();
+    let (imax, inext, omax, onext, nch) = each!(r, x => (
+        x.input_frames_max(), x.input_frames_next(), x.output_frames_max(),
+        x.output_frames_next(), x.nbr_channels()));
+    if cx.fed.len() < nch + 8 {
+        cx.fed.resize(nch + 8, 0);
+    }
+    let mut out = Vec::new();
+    for tok in line.split(' ') {
+        if tok.starts_with("inlen=") || tok.starts_with("outlen=") || tok.starts_with("sig=") {
+            continue;
+        }
+        out.push(tok.to_string());
+    }
+    if let Some(spec) = m.get("inlen") {
+        if spec == "none" {
+            out.push("in=none".to_string());
+        } else if spec == "~" {
+            out.push("in=~".to_string());
+        } else {
+            let sig = m.get("sig").map(|s| s.as_str()).unwrap_or("zero");
+            let specs: Vec<&str> = spec.split(';').collect();
+            let mut chs = Vec::new();
+            for (c, sp) in specs.iter().enumerate() {
+                let n = resolve_len(sp, inext, imax);
+                let v = gen_signal::<T>(sig, c, cx.fed[c], n);
+                // the stream advances by what the resampler will consume (at most what is supplied)
+                cx.fed[c] += n.min(inext) as u64;
+                chs.push(str_samples(&v));
+            }
+            out.push(format!("in={}", chs.join(";")));
+        }
+    }
+    if let Some(spec) = m.get("outlen") {
+        if spec == "~" {
+            out.push("out=~".to_string());
+        } else {
+            let sentinel: T = to_t::<T>(1234.5);
+            let chs: Vec<String> = spec
+                .split(';')
+                .map(|sp| {
+                    let n = resolve_len(sp, onext, omax);
+                    if n == 0 {
+                        String::new()
+                    } else {
+                        format!("{}*{}", n, sentinel.hex())
+                    }
+                })
+                .collect();
+            out.push(format!("out={}", chs.join(";")));
+        }
+    }
+    out.join(" ")
 }
 
 fn flush() {
@@ -499,9 +643,14 @@ fn parse_f<T: Smp>(s: &str) -> T {
 
 fn do_op<T: Smp>(cx: &mut Ctx<T>, cmd: &str, line: &str, m: &HashMap<String, String>) {
     if cx.dead || cx.r.is_none() {
-        writeln!(cx.hist, "{}", line).unwrap();
         return;
     }
+    let line_owned = expand(cx, line, m);
+    let line: &str = &line_owned;
+    let m_owned = kv(line);
+    let m = &m_owned;
+    writeln!(cx.hist, "{}", line).unwrap();
+    cx.hist.flush().unwrap();
     let r = cx.r.as_mut().unwrap();
     hooks::fft::unit_log_start();
     let want_allocs = m.contains_key("allocs");
@@ -623,7 +772,6 @@ fn do_op<T: Smp>(cx: &mut Ctx<T>, cmd: &str, line: &str, m: &HashMap<String, Str
         let ov: Vec<T> = o.iter().map(|s| parse_f::<T>(s)).collect();
         writeln!(cx.hist, "UNIT i={} o={}", str_samples(&iv), str_samples(&ov)).unwrap();
     }
-    writeln!(cx.hist, "{}", line).unwrap();
     match outcome {
         Ok(_) => {
             if want_allocs {
@@ -763,6 +911,7 @@ fn run<T: Smp>(lines: &[String], hist: std::fs::File) {
         r: None,
         hist,
         dead: false,
+        fed: Vec::new(),
     };
     for line in lines {
         let line = line.trim();
